@@ -31,7 +31,6 @@ var (
 )
 
 func nodeName(i int) string  { return fmt.Sprintf("n%d", i) }
-func claimName(i int) string { return fmt.Sprintf("nc%d", i) }
 func podName(i int) string   { return fmt.Sprintf("p%d", i) }
 func dsName(i int) string    { return fmt.Sprintf("ds%d", i) }
 
@@ -113,7 +112,11 @@ type hgen struct {
 	kseq     int
 	marked   map[string]bool
 	podVols  [maxPods][]string // default volumes per pod name
+	nodeUsed [maxNodes]bool    // the node name has been used by an earlier incarnation
+	claimGen [maxClaims]int    // NodeClaim names are never reused (generateName in production)
 }
+
+func (g *hgen) cname(i int) string { return fmt.Sprintf("nc%d-%d", i, g.claimGen[i]) }
 
 func q(s string) resource.Quantity { return resource.MustParse(s) }
 
@@ -201,7 +204,7 @@ func (g *hgen) taints() []corev1.Taint {
 func (g *hgen) poolFor(i int) string { return poolNames[i%len(poolNames)] }
 
 func (g *hgen) buildClaim(i int, launched bool) *v1.NodeClaim {
-	nc := &v1.NodeClaim{ObjectMeta: metav1.ObjectMeta{Name: claimName(i), Labels: map[string]string{
+	nc := &v1.NodeClaim{ObjectMeta: metav1.ObjectMeta{Name: g.cname(i), Labels: map[string]string{
 		v1.NodePoolLabelKey: g.poolFor(i),
 	}}}
 	if g.chance(0.85) {
@@ -408,6 +411,11 @@ func (g *hgen) opNodeCreate(i int) {
 	s := nodeShape{}
 	pid := ""
 	r := g.rng.Float64()
+	if g.nodeUsed[i] && r >= 0.55 && r < 0.76 {
+		// a re-created Node never starts in a shape UpdateNode ignores (see package doc: known limitation)
+		r = 0
+	}
+	g.nodeUsed[i] = true
 	switch {
 	case r < 0.55: // managed, complete
 		s = nodeShape{managed: true, withPID: true, withIT: true}
@@ -450,7 +458,10 @@ func (g *hgen) opNodeMutate(i int) {
 	name := nodeName(i)
 	var cands []string
 	if n.managed {
-		cands = append(cands, "registered", "initialized", "annot", "taints", "capacity")
+		cands = append(cands, "registered", "annot", "taints", "capacity")
+		if n.hasIT || !n.initialized {
+			cands = append(cands, "initialized")
+		}
 		if n.pid == "" {
 			cands = append(cands, "pid", "pid", "pid")
 		}
@@ -470,7 +481,7 @@ func (g *hgen) opNodeMutate(i int) {
 		g.add(op{Kind: opMutate, ObjKind: "Node", Name: name, Desc: fmt.Sprintf("update Node %s label registered=%v", name, nv), Mut: func(o client.Object) {
 			nd := o.(*corev1.Node)
 			if nv {
-				nd.Labels[v1.NodeRegisteredLabelKey] = "true"
+				setLabel(nd, v1.NodeRegisteredLabelKey, "true")
 				nd.Spec.Taints = rejectTaint(nd.Spec.Taints, v1.UnregisteredTaintKey)
 			} else {
 				delete(nd.Labels, v1.NodeRegisteredLabelKey)
@@ -483,11 +494,14 @@ func (g *hgen) opNodeMutate(i int) {
 		g.add(op{Kind: opMutate, ObjKind: "Node", Name: name, Desc: fmt.Sprintf("update Node %s label initialized=%v", name, nv), Mut: func(o client.Object) {
 			nd := o.(*corev1.Node)
 			if nv {
-				nd.Labels[v1.NodeInitializedLabelKey] = "true"
+				setLabel(nd, v1.NodeInitializedLabelKey, "true")
 				nd.Spec.Taints = rejectTaint(rejectTaint(nd.Spec.Taints, corev1.TaintNodeNotReady), "startup")
 				for k, v := range nd.Status.Capacity {
 					if v.IsZero() {
 						nd.Status.Capacity[k] = q("1")
+						if nd.Status.Allocatable == nil {
+							nd.Status.Allocatable = corev1.ResourceList{}
+						}
 						nd.Status.Allocatable[k] = q("1")
 					}
 				}
@@ -554,16 +568,25 @@ func (g *hgen) opNodeMutate(i int) {
 		g.add(op{Kind: opMutate, ObjKind: "Node", Name: name, Desc: fmt.Sprintf("update Node %s spec.providerID \"\" -> %q + nodepool/instance-type labels", name, pid), Mut: func(o client.Object) {
 			nd := o.(*corev1.Node)
 			nd.Spec.ProviderID = pid
-			nd.Labels[v1.NodePoolLabelKey] = pool
-			nd.Labels[corev1.LabelInstanceTypeStable] = "it-small"
+			setLabel(nd, v1.NodePoolLabelKey, pool)
+			setLabel(nd, corev1.LabelInstanceTypeStable, "it-small")
 		}})
 		g.feat("node-pid-set-after-create")
 	case "it":
 		n.hasIT = true
 		g.add(op{Kind: opMutate, ObjKind: "Node", Name: name, Desc: fmt.Sprintf("update Node %s add instance-type label", name), Mut: func(o client.Object) {
-			o.(*corev1.Node).Labels[corev1.LabelInstanceTypeStable] = "it-small"
+			setLabel(o, corev1.LabelInstanceTypeStable, "it-small")
 		}})
 	}
+}
+
+func setLabel(o client.Object, k, v string) {
+	l := o.GetLabels()
+	if l == nil {
+		l = map[string]string{}
+	}
+	l[k] = v
+	o.SetLabels(l)
 }
 
 func rejectTaint(ts []corev1.Taint, key string) []corev1.Taint {
@@ -604,6 +627,7 @@ func (g *hgen) opNodeDelete(i int) {
 
 func (g *hgen) opClaimCreate(i int) {
 	c := &g.claims[i]
+	g.claimGen[i]++
 	if g.pairK[i] == "" || g.pairUsed[i] {
 		g.pairK[i] = g.newK()
 	}
@@ -616,13 +640,13 @@ func (g *hgen) opClaimCreate(i int) {
 	} else {
 		g.feat("claim-pid-later")
 	}
-	g.add(op{Kind: opCreate, ObjKind: "NodeClaim", Name: claimName(i), Obj: obj,
-		Desc: fmt.Sprintf("create NodeClaim %s pool=%s status.providerID=%q finalizer=%v startupTaints=%d capacity=%s", claimName(i), obj.Labels[v1.NodePoolLabelKey], obj.Status.ProviderID, c.finalizer, len(obj.Spec.StartupTaints), rlString(obj.Status.Capacity))})
+	g.add(op{Kind: opCreate, ObjKind: "NodeClaim", Name: g.cname(i), Obj: obj,
+		Desc: fmt.Sprintf("create NodeClaim %s pool=%s status.providerID=%q finalizer=%v startupTaints=%d capacity=%s", g.cname(i), obj.Labels[v1.NodePoolLabelKey], obj.Status.ProviderID, c.finalizer, len(obj.Spec.StartupTaints), rlString(obj.Status.Capacity))})
 }
 
 func (g *hgen) opClaimMutate(i int) {
 	c := &g.claims[i]
-	name := claimName(i)
+	name := g.cname(i)
 	cands := []string{"cond", "annot", "label", "cond"}
 	if c.pid == "" {
 		cands = append(cands, "launch", "launch", "launch", "launch")
@@ -657,7 +681,7 @@ func (g *hgen) opClaimMutate(i int) {
 	case "label":
 		val := g.pick("red", "blue")
 		g.add(op{Kind: opMutate, ObjKind: "NodeClaim", Name: name, Desc: fmt.Sprintf("update NodeClaim %s label team=%s", name, val), Mut: func(o client.Object) {
-			o.(*v1.NodeClaim).Labels["team"] = val
+			setLabel(o, "team", val)
 		}})
 		g.feat("claim-update")
 	}
@@ -673,7 +697,7 @@ func (g *hgen) claimGone(i int) {
 
 func (g *hgen) opClaimDelete(i int) {
 	c := &g.claims[i]
-	name := claimName(i)
+	name := g.cname(i)
 	if c.finalizer && !c.deleting {
 		c.deleting = true
 		g.add(op{Kind: opDelete, ObjKind: "NodeClaim", Name: name, Desc: fmt.Sprintf("delete NodeClaim %s (finalizer present: deletionTimestamp set)", name)})
@@ -751,6 +775,9 @@ func (g *hgen) opPodMutate(j int) {
 		cpu := g.pick("150m", "300m", "2")
 		g.add(op{Kind: opMutate, ObjKind: "Pod", NS: "default", Name: name, Desc: fmt.Sprintf("resize Pod %s cpu request -> %s", name, cpu), Mut: func(o client.Object) {
 			pd := o.(*corev1.Pod)
+			if pd.Spec.Containers[0].Resources.Requests == nil {
+				pd.Spec.Containers[0].Resources.Requests = corev1.ResourceList{}
+			}
 			pd.Spec.Containers[0].Resources.Requests[corev1.ResourceCPU] = q(cpu)
 			if l := pd.Spec.Containers[0].Resources.Limits; l != nil {
 				l[corev1.ResourceCPU] = q("4")
@@ -759,7 +786,7 @@ func (g *hgen) opPodMutate(j int) {
 	case "label":
 		val := g.pick("1", "2")
 		g.add(op{Kind: opMutate, ObjKind: "Pod", NS: "default", Name: name, Desc: fmt.Sprintf("update Pod %s label rev=%s", name, val), Mut: func(o client.Object) {
-			o.(*corev1.Pod).Labels["rev"] = val
+			setLabel(o, "rev", val)
 		}})
 	case "terminal":
 		ph := []corev1.PodPhase{corev1.PodSucceeded, corev1.PodFailed}[g.rng.Intn(2)]
@@ -797,10 +824,13 @@ func (g *hgen) opPodRecreate(j int) {
 	old := g.pods[j].node
 	glue := g.chance(0.7)
 	g.opPodDelete(j, true, glue)
-	// prefer another node
+	// prefer another node; sometimes the very same one (StatefulSet pod restarted in place)
 	node := g.randNodeTarget()
 	for t := 0; t < 4 && (node == old || node == ""); t++ {
 		node = g.randNodeTarget()
+	}
+	if old != "" && g.chance(0.2) {
+		node = old
 	}
 	g.opPodCreate(j, node, false)
 	if old != "" && node != "" && node != old {
